@@ -124,12 +124,13 @@ type SharedSpec struct {
 }
 
 type Plan struct {
-	Prop string `json:"prop"`
-	Seed uint64 `json:"seed"`
-	Run  int    `json:"run"`
-	Cfg  Config `json:"cfg"`
-	Ops  []Op   `json:"ops,omitempty"`
-	Note string `json:"note,omitempty"`
+	Prop string  `json:"prop"`
+	Seed uint64  `json:"seed"`
+	Run  int     `json:"run"`
+	Cfg  Config  `json:"cfg"`
+	Cfg2 *Config `json:"cfg2,omitempty"` // a second parser: resolve way 3 is Parser2.BasicParser(ref, base, nil, NoState) on a base the first parser made (and vice versa)
+	Ops  []Op    `json:"ops,omitempty"`
+	Note string  `json:"note,omitempty"`
 	// schedsim
 	Parsers    []Config  `json:"parsers,omitempty"`
 	Shared     [][]Op    `json:"shared,omitempty"` // construction history of each shared URL (handle 0 of its own little world)
